@@ -144,7 +144,9 @@ PROPS.update({
         "modules": _DISPATCH_MODS,
         "contracts": ["Pyro5.server.Daemon._sendExceptionResponse#body", _HR],
         "groups": [{"modules": ["specs.socket_model", "specs.pystruct", "specs.seqdict", "specs.opaque", "specs.daemon_model", "contracts.deserialize"],
-                    "contracts": ["Pyro5.serializers.SerializerBase.dict_to_class"]}],
+                    "contracts": ["Pyro5.serializers.SerializerBase.dict_to_class"]},
+                   {"modules": ["specs.socket_model", "specs.pystruct", "specs.seqdict", "specs.opaque", "specs.daemon_model", "contracts.exception_roundtrip"],
+                    "contracts": ["Pyro5.serializers.SerializerBase.class_to_dict#exception", "Pyro5.serializers.SerializerBase.make_exception#body"]}],
         "harness": "replay/dispatch.py",
         "explanation": "_sendExceptionResponse: exactly one RESULT message with the exception flag, the request's sequence number and serializer is sent; its payload is "
                        "the serialised exception with the traceback attached, or - for ANY exception raised by the first dumps - the serialised fallback PyroError built "
@@ -152,9 +154,14 @@ PROPS.update({
                        "hook, an oversized reply or a failing send.  handleRequest: a non-oneway request is answered exactly once on every normal return (result or error "
                        "reply carrying the request's sequence number), never silently.  Second contract group (shared with C04): dict_to_class rebuilds an exception "
                        "as the class its COMPLETE tag names - the whitelist is consulted with the whole tag, a name is resolved only in the module its namespace prefix spells "
-                       "out (Pyro5.errors / builtins / sqlite3) - so a builtin exception never comes back as a same-named Pyro class.",
-        "assumptions": _COMMON_ASSUME + ["the class/args/attribute round trip through class_to_dict / dict_to_class and the serializer libraries is covered by the bounded native "
-                                         "harness only (4 serializers x builtin and Pyro exception classes)"],
+                       "out (Pyro5.errors / builtins / sqlite3) - so a builtin exception never comes back as a same-named Pyro class.  Third contract group (the two ends of the "
+                       "journey): class_to_dict turns an exception into exactly the four entries __class__ = module + '.' + name of ITS class, __exception__ = True, args = its args, "
+                       "attributes = its instance attributes, all unchanged; make_exception constructs exactly one object, by calling the given class once with exactly the payload's "
+                       "args, sets exactly the items of the payload's attribute dict on that object (loop invariant: one setattr per item, name and value of that item), sets nothing "
+                       "without an attribute dict, and returns that object.",
+        "assumptions": _COMMON_ASSUME + ["that the serializer libraries carry the four entries of the exception dict unchanged (up to the serializer's type mapping), and the composition class_to_dict -> wire -> "
+                                         "dict_to_class -> make_exception, are argued in DESIGN 9.2.1 and observed by the bounded native harness (4 serializers x builtin and Pyro exception classes); "
+                                         "no class_to_dict converter is registered for exception classes; the exception class is an opaque callable (may raise anything)"],
     },
     "C11": {
         "modules": _DISPATCH_MODS,
@@ -377,13 +384,21 @@ PROPS.update({
         "modules": ["specs.socket_model", "specs.seqdict", "specs.opaque", "specs.storage_model", "contracts.nameserver_locks", "contracts.nameserver_map"],
         "contracts": ["Pyro5.nameserver.NameServer.count#map", "Pyro5.nameserver.NameServer.lookup#map", "Pyro5.nameserver.NameServer.register#map",
                       "Pyro5.nameserver.NameServer.set_metadata#map", "Pyro5.nameserver.NameServer.remove#map"],
+        "groups": [{"modules": ["specs.socket_model", "specs.seqdict", "specs.opaque", "specs.storage_model", "contracts.memory_storage"],
+                    "contracts": ["Pyro5.nameserver.MemoryStorage.%s" % m for m in ("__setitem__", "optimized_prefix_list", "optimized_regex_list", "optimized_metadata_search",
+                                                                                       "everything", "remove_items")]}],
         "harness": "replay/c14.py",
         "explanation": "count, lookup, register (safe and unsafe), set_metadata and remove-by-name proved against the abstract map sigma = (names, uri, tag set) behind "
                        "the storage interface Sigma: exact result, exactly the named entry changes, every other name untouched, count follows, a refused or failing operation "
                        "changes nothing, a safe registration of an existing name never succeeds, the name server's own entry is never removed, names compare literally "
-                       "(string equality).  Back-end equivalence and persistence are NOT decided deductively: list / yplookup / remove by prefix or regex, MemoryStorage "
-                       "and SqlStorage against Sigma (SQL statements), reopen and statement-failure atomicity are covered by the bounded differential harness.",
-        "assumptions": ["the storage object obeys Sigma (specs/storage_model.py); both back-ends refining it is checked only by differential testing against a reference map "
+                       "(string equality).  Second contract group - the in-memory back-end REFINES Sigma: MemoryStorage.__setitem__ stores exactly the given uri and tag set (no tags for None / an "
+                       "empty collection) under the name and touches nothing else, the count grows by one exactly for a new name; the three optimized_* queries answer None without "
+                       "touching anything; everything(return_metadata=True) is a NEW dict with exactly the storage's entries; remove_items (loop invariant) leaves present exactly "
+                       "the names that were present and are not listed, skips absent ones, and touches no uri or tag set.  NOT decided deductively: SqlStorage against Sigma (SQL "
+                       "statements), list / yplookup / remove by prefix or regex on top of the back-ends, reopen and statement-failure atomicity - bounded differential harness.",
+        "assumptions": ["MemoryStorage: the operations it inherits from dict (lookup, deletion, membership, length, iteration, copy) are CPython's dict; a set is falsy exactly when empty; "
+                        "everything(return_metadata=False) (a dict comprehension) is covered by the harness only",
+                        "the storage object obeys Sigma (specs/storage_model.py); for SqlStorage this is checked only by differential testing against a reference map "
                         "(60 seeded histories quick / 600 thorough, wildcard, case, regex and unicode names; reopen; every sqlite statement as failure point)",
                         "URI text validity is an uninterpreted predicate here (C19)"],
     },
